@@ -9,7 +9,9 @@ import (
 )
 
 func DecodeBase64(raw []byte) ([]byte, error) {
-	ret := make([]byte, base64x.StdEncoding.DecodedLen(len(raw)))
+	/* DecodedLen rounds down to whole 4-byte groups, but the decoder also accepts
+	 * an unpadded trailing group, which yields up to 2 more bytes: size for it */
+	ret := make([]byte, (len(raw)+3)/4*3)
 	n, err := base64x.StdEncoding.Decode(ret, raw)
 	if err != nil {
 		return nil, err
